@@ -92,6 +92,15 @@ def _stats(runs: list[dict]) -> dict:
         if r.get("dump_event") is not None:
             c["loaded_continuations"] += 1
         c["status:" + r["status"]] += 1
+        exp = r.get("spec", {}).get("expect")
+        if exp and evs and evs[-1]["e"] == "end" and r.get("dump_event") is None:
+            # spec -> code: did the real run end in the very state the TLC behaviour predicted?
+            got = [{"id": d["id"], "act": bool(d["act"]), "hib": bool(d["hib"]), "me": d["me"], "sa": d["sa"]}
+                   for d in evs[-1]["snap"]["demes"]]
+            want = [{k: d[k] for k in ("id", "act", "hib", "me", "sa")} for d in exp["demes"]]
+            c["scenarios_replayed"] += 1
+            if got == want and evs[-1]["snap"]["mc"] == exp["mc"]:
+                c["scenarios_followed_exactly"] += 1
     return dict(c)
 
 
